@@ -28,6 +28,7 @@ type envCfg struct {
 	OutFile  string // stats JSON (written at the end)
 	FailFile string // structured failing case (rewritten on every failing execution; the last one is the shrunk one)
 	Journal  string // case about to be executed (for process-killing failures)
+	History  string // the last historyLen executed cases, written at the first failure (for failures that depend on earlier calls)
 	CaseSecs float64
 	HeapMiB  uint64
 }
@@ -41,6 +42,7 @@ func loadEnv() envCfg {
 		OutFile:  perProcess(os.Getenv("VERIF_OUT")),
 		FailFile: os.Getenv("VERIF_FAILCASE"),
 		Journal:  perProcess(os.Getenv("VERIF_JOURNAL")), // %p = pid: native fuzzing runs several worker processes
+		History:  os.Getenv("VERIF_HISTORY"),
 		CaseSecs: 180,
 		HeapMiB:  2048,
 	}
@@ -125,10 +127,21 @@ var (
 // beginCase journals the case about to run (one pwrite into a pre-opened file: a 20-byte length header
 // followed by the JSON; no truncation needed) and arms the watchdog.
 func beginCase(propID string, c any) {
+	var raw json.RawMessage
+	if cfg.Journal != "" || cfg.History != "" {
+		raw = mustRaw(c)
+	}
+	if cfg.History != "" && !historyWritten {
+		if len(histRing) == historyLen {
+			copy(histRing, histRing[1:])
+			histRing = histRing[:historyLen-1]
+		}
+		histRing = append(histRing, raw)
+	}
 	if cfg.Journal != "" {
 		journalOnce.Do(func() { journalFile, _ = os.OpenFile(cfg.Journal, os.O_CREATE|os.O_RDWR|os.O_TRUNC, 0o644) })
 		if journalFile != nil {
-			b, _ := json.Marshal(envelope{Property: propID, Case: mustRaw(c)})
+			b, _ := json.Marshal(envelope{Property: propID, Case: raw})
 			buf := append([]byte(fmt.Sprintf("%19d\n", len(b))), b...)
 			_, _ = journalFile.WriteAt(buf, 0)
 		}
@@ -142,6 +155,27 @@ func beginCase(propID string, c any) {
 			os.Exit(3)
 		}
 	}
+}
+
+// History: a failure may depend on the calls made earlier in the same process (state that leaks from one Layout call into
+// the next - seeded/r4-m02 made WithOutputVirtualNodes(true) stick for later calls). Such a case passes when replayed
+// alone, so the harness keeps the last historyLen executed cases and writes them out at the FIRST failing execution; the
+// driver replays that sequence in one fresh process, minimises it, and only then calls it a violation.
+const historyLen = 64
+
+var (
+	histRing       []json.RawMessage
+	historyWritten bool
+)
+
+func writeHistory(propID string) {
+	if cfg.History == "" || historyWritten {
+		return
+	}
+	historyWritten = true
+	b, _ := json.Marshal(envelope{Property: propID, History: histRing})
+	_ = os.WriteFile(cfg.History, b, 0o644)
+	histRing = nil
 }
 
 func endCase() {
@@ -168,8 +202,10 @@ func noteSlow(d time.Duration, c any) {
 type envelope struct {
 	Property string          `json:"property"`
 	Case     json.RawMessage `json:"case"`
-	Error    string          `json:"error,omitempty"`
-	Note     string          `json:"note,omitempty"`
+	// History: cases to execute (outcomes ignored) in the same process BEFORE Case - a failure that depends on earlier calls
+	History []json.RawMessage `json:"history,omitempty"`
+	Error   string            `json:"error,omitempty"`
+	Note    string            `json:"note,omitempty"`
 }
 
 func mustRaw(c any) json.RawMessage {
@@ -347,6 +383,7 @@ func runGenerated(t *testing.T, p *Property) {
 		if o.Err != nil {
 			if firstFailure.IsZero() {
 				firstFailure = time.Now()
+				writeHistory(p.ID) // the failing case is the last entry
 			}
 			writeFailCase(p.ID, c, o.Err)
 			rt.Fatalf("property %s violated: %v\ncase: %s", p.ID, o.Err, mustRaw(c))
